@@ -1,6 +1,7 @@
 package world
 
 import (
+	"crypto/sha256"
 	"encoding/json"
 	"fmt"
 	"sort"
@@ -24,6 +25,11 @@ type TwinLog struct {
 }
 
 func (t *TwinLog) add(label, data string) {
+	if len(data) > 8192 {
+		// long renderings are compared by digest (a twin pair differs in the digest iff it differs in the text)
+		h := sha256.Sum256([]byte(data))
+		data = data[:2048] + fmt.Sprintf("…[%d bytes, sha256 %x]", len(data), h[:12])
+	}
 	t.Labels = append(t.Labels, label)
 	t.Data = append(t.Data, data)
 }
